@@ -160,5 +160,17 @@ PROPS['C04'] = Prop(
     assumptions=['Callback type is std::function; listeners of one event take the payload by value (and move from their copy) and by const reference',
                  'a witness path on which a g++ build violates an assertion while the clang build and the engine agree is reported as a violation (compiler-dependent behaviour)'])
 
+_HT = ('%s with prototypes void(), void(uint32_t), void(const Big&), void(Trk, uint32_t) (Big: 48 bytes owning a heap cell; Trk: ledger-counted); one callback per prototype initially; '
+       'K=%d steps from append/prepend callback of prototype p, remove through a handle, invoke/dispatch with the argument list of prototype p%s; payloads symbolic')
+PROPS['C14'] = Prop(
+    quick=[Run('heter_queue_k3', 'heter.cpp', {'OBJ': 2, 'KK': 3}, covers=6, bounds=_HT % ('HeterEventQueue', 3, ', enqueue of prototype p, process, processOne, processIf with a predicate callable with exactly one prototype or with all of them (verdict = function of the symbolic payload)')),
+           Run('heter_cl_k3', 'heter.cpp', {'OBJ': 0, 'KK': 3}, covers=1, bounds=_HT % ('HeterCallbackList', 3, '')),
+           Run('heter_disp_k3', 'heter.cpp', {'OBJ': 1, 'KK': 3}, covers=1, bounds=_HT % ('HeterEventDispatcher', 3, ''))],
+    thorough=[Run('heter_queue_k4', 'heter.cpp', {'OBJ': 2, 'KK': 4}, covers=6, budget_s=1700, bounds=_HT % ('HeterEventQueue', 4, ', enqueue, process, processOne, processIf')),
+              Run('heter_cl_k4', 'heter.cpp', {'OBJ': 0, 'KK': 4}, covers=1, budget_s=1700, bounds=_HT % ('HeterCallbackList', 4, '')),
+              Run('heter_disp_k4', 'heter.cpp', {'OBJ': 1, 'KK': 4}, covers=1, budget_s=1700, bounds=_HT % ('HeterEventDispatcher', 4, ''))],
+    outside='more than K steps; prototype lists other than the one instantiated; ArgumentPassingIncludeEvent for heterogeneous classes; callbacks callable with several prototypes',
+    assumptions=['type confusion is observable three ways: ledger of the tracked types, engine memory checks (non-pointer data used as pointer, out of bounds), wrong trace'])
+
 HOOK_COMMITS = []
 EBMC_PROPS = []
